@@ -2,6 +2,7 @@ package chain
 
 import (
 	"fmt"
+	"github.com/MinterTeam/minter-go-node/rlp"
 	"math/big"
 	"math/rand"
 	"sort"
@@ -156,6 +157,60 @@ func (OracleC13) Judge(w *World, b *BlockCtx, p *ProbeResult) {
 		pl := poolByCoins(p.Before, uint64(d.Coin0), uint64(d.Coin1))
 		if pl == nil || ownsOrder(p.Before, m.Sender) {
 			return
+		}
+		// tight minimums (counterfactual variants): the same removal asking for exactly what it really
+		// returned must go through, and asking for one unit more must be refused - without a panic, and
+		// with CheckTx and DeliverTx agreeing - also when the commission is swapped through this pool
+		if v0, ok0 := new(big.Int).SetString(p.Tags["tx.volume0"], 10); ok0 && p.Variant != nil {
+			if v1, ok1 := new(big.Int).SetString(p.Tags["tx.volume1"], 10); ok1 {
+				try := func(min0, min1 *big.Int, mustPass bool, what string) bool {
+					alt := Resign(m, w.Sc.Gen.NAcct, func(tx *transaction.Transaction) bool {
+						dd := d
+						dd.MinimumVolume0, dd.MinimumVolume1 = min0, min1
+						enc, err := rlp.EncodeToBytes(dd)
+						if err != nil {
+							return false
+						}
+						tx.Data = enc
+						return true
+					})
+					if alt == nil {
+						return true
+					}
+					vr := p.Variant(alt, true)
+					if vr == nil {
+						return true
+					}
+					if vr.Err != nil {
+						w.Report("C07", "no-panic", "tight-minimum:"+vr.Phase+"@"+vr.Err.Site, fmt.Sprintf("height %d remove-liquidity %s (really returned %s / %s; CheckTx code %d): %s panics: %v\n%s", p.Height, what, v0, v1, vr.CheckCode, vr.Phase, vr.Err, trimStack(vr.Err.Stack)), p.Height)
+						return false
+					}
+					if (vr.CheckCode == 0) != (vr.Resp.Code == 0) && vr.CheckCode != 113 && vr.CheckCode != 114 {
+						w.Report("C06", "check-deliver", "tight-minimum:remliq", fmt.Sprintf("height %d remove-liquidity %s: CheckTx answers %d, DeliverTx on the same state %d", p.Height, what, vr.CheckCode, vr.Resp.Code), p.Height)
+						return false
+					}
+					if mustPass && vr.Resp.Code != 0 {
+						w.Report("C13", "pool-value", "tight-minimum-refused", fmt.Sprintf("height %d: the same removal asking for exactly the %s / %s it returned is refused with code %d (%s)", p.Height, v0, v1, vr.Resp.Code, vr.Resp.Log), p.Height)
+						return false
+					}
+					if !mustPass && vr.Resp.Code == 0 {
+						if g0, ok := new(big.Int).SetString(vr.Tags["tx.volume0"], 10); ok && g0.Cmp(min0) < 0 {
+							w.Report("C13", "pool-value", "tight-minimum-ignored", fmt.Sprintf("height %d: removal asking for at least %s of the first coin is accepted and returns %s", p.Height, min0, g0), p.Height)
+							return false
+						}
+					}
+					return true
+				}
+				if (p.Height+int64(p.Index))%2 == 0 {
+					if !try(v0, v1, true, "asking for exactly what it returned") {
+						return
+					}
+					if !try(new(big.Int).Add(v0, big.NewInt(1)), v1, false, "asking for one unit more of the first coin") {
+						return
+					}
+					w.Probe("c13_remove_tight_minimum_checked")
+				}
+			}
 		}
 		if m.GasCoin != 0 && (m.GasCoin == pl.Coin0 || m.GasCoin == pl.Coin1) && p.Tags["tx.commission_conversion"] == "pool" {
 			w.Probe("c13_skipped_commission_through_same_pool")
@@ -668,8 +723,8 @@ func init() {
 		Monitors: func(sc *Scenario) []Monitor {
 			return []Monitor{&MonC13{}, &MonProbe{Oracles: []Prober{OracleC13{}}}}
 		},
-		Distinct: probeDistinct,
-		ExpectProbes: []string{"c13_block_checked", "c13_traded_pool", "c13_traded_pool_with_orders", "c13_remove_checked", "c13_add_checked"},
+		Distinct:     probeDistinct,
+		ExpectProbes: []string{"c13_block_checked", "c13_traded_pool", "c13_traded_pool_with_orders", "c13_remove_checked", "c13_add_checked", "c13_remove_tight_minimum_checked"},
 	})
 	register(&PropSpec{ID: "C14", Level: "exploration",
 		Rule: "order-heavy histories: makers place orders around the pool price on several pools, takers trade through 1..4 hop routes and custom commission coins, owners and strangers cancel, orders expire at the configured period, restarts of nothing (single node) but fresh probe nodes load books from disk; oracles per transaction (counterfactual twins): makers receive at least floor(sold*price)-1 per consumed order at the order's own price with refunds of closed remainders, partially filled orders keep their price within one unit and stay above the minimum volume, nothing ahead in the book (price at double precision, then id) is skipped, cancellation only by the owner, once, returning exactly the unfilled amount; per block: expiry exactly at the configured period with exact refund events; distinct non-trivial case = distinct (tx kind, result code) of order/trade transactions",
@@ -688,7 +743,7 @@ func init() {
 		Monitors: func(sc *Scenario) []Monitor {
 			return []Monitor{&MonProbe{Oracles: []Prober{&OracleC14{}}}, MonC14Expiry{}}
 		},
-		Distinct: probeDistinct,
+		Distinct:     probeDistinct,
 		ExpectProbes: []string{"c14_order_placed", "c14_fill_checked", "c14_trade_with_fills", "c14_trade_with_several_fills", "c14_cancel_checked", "c14_expiry_checked", "c14_cancel_by_stranger_rejected", "c14_closed_remainder_refund_checked", "c14_equal_price_neighbours_consumed"},
 	})
 }
